@@ -309,7 +309,7 @@ Section Sound.
     bfs ord (S (2 * edge_count s)) s seed (map (fun c => (c, seed)) (ord seed (children s seed))) [(seed, nobody)].
   Proof.
     unfold find_cycle. rewrite bfs_step. cbn [aget aset app]. cbv zeta.
-    rewrite Z.eqb_refl. cbn [negb andb]. rewrite andb_false_r. reflexivity.
+    rewrite (Z.eqb_refl nobody). cbn [negb]. rewrite andb_false_r. reflexivity.
   Qed.
 
   Lemma inv_init : inv (map (fun c => (c, seed)) (ord seed (children s seed))) [(seed, nobody)].
